@@ -360,6 +360,21 @@ class Exec:
         p = os.path.join(self.tmpdir, name + '.txt')
         return pathlib.Path(p) if kind == 'Path' else p
 
+    def _scratch_fds(self):
+        """Open descriptors of this process that refer to files in the run's scratch directory."""
+        out = set()
+        try:
+            for fd in os.listdir('/proc/self/fd'):
+                try:
+                    tgt = os.readlink('/proc/self/fd/' + fd)
+                except OSError:
+                    continue
+                if tgt.startswith(self.tmpdir + os.sep):
+                    out.add(tgt)
+        except OSError:
+            pass
+        return out
+
     def unpath(self, text):
         """Details and traces never contain the scratch directory (it differs between processes)."""
         return text.replace(self.tmpdir, '<scratch>') if self.tmpdir else text
@@ -426,8 +441,10 @@ class Exec:
             if not rec.closed:
                 raise Violation('handle_leak', f"handle on {os.path.basename(rec.path)} (mode {rec.mode!r}) still open when "
                                                f"{op['op']} returned control ({phase})")
-        if len(os.listdir('/proc/self/fd')) > fds_before:
-            raise Violation('handle_leak', f"file descriptors still open when {op['op']} returned control ({phase})")
+        leaked = self._scratch_fds() - fds_before
+        if leaked:
+            raise Violation('handle_leak', f"file descriptor(s) on {sorted(os.path.basename(x) for x in leaked)} still open "
+                                           f"when {op['op']} returned control ({phase})")
         for rec in new:
             if rec.text and norm_encoding(rec.encoding) != 'utf-8':
                 raise Violation('not_utf8', f"path {os.path.basename(rec.path)} opened with encoding={rec.encoding!r}")
@@ -494,7 +511,7 @@ class Exec:
             kw['custom'] = ent['H']
         faults = self.arm(op)
         opened_before = len(self.fs.opens)
-        fds_before = len(os.listdir('/proc/self/fd'))
+        fds_before = self._scratch_fds()
         sink.nops += 1
         if sink.nops >= 2:
             self.nontrivial = True
@@ -665,7 +682,7 @@ class Exec:
             kw['custom'] = ent['H']
         faults = self.arm(op)
         opened_before = len(self.fs.opens)
-        fds_before = len(os.listdir('/proc/self/fd'))
+        fds_before = self._scratch_fds()
         sink.nops += 1
         if sink.nops >= 2:
             self.nontrivial = True
